@@ -3,6 +3,7 @@ package kit
 import (
 	"encoding/json"
 	"fmt"
+	"sync"
 
 	"github.com/jsightapi/jsight-schema-core/fs"
 	"github.com/jsightapi/jsight-schema-core/reader"
@@ -80,10 +81,17 @@ func (j *JApi) ToOpenAPIJsonIndent() ([]byte, error) {
 	})
 }
 
+var openAPIMu sync.Mutex
+
 // toOpenAPIPanicFree converts the catalog to the OpenAPI document and marshals it.
 // The converter might panic on schemas that it cannot represent, such a panic
 // is returned as an ordinary error.
 func toOpenAPIPanicFree(c *catalog.Catalog, marshal func(any) ([]byte, error)) (b []byte, err error) {
+	// The OpenAPI converter of the jsight-schema-core library marshals schemas through
+	// pooled buffers which are not safe for concurrent use, so conversions are serialized.
+	openAPIMu.Lock()
+	defer openAPIMu.Unlock()
+
 	defer func() {
 		if r := recover(); r != nil {
 			b = nil
